@@ -103,6 +103,20 @@ Theorem C19_rfc8032_constants :
   /\ Ed25519.base = (Ed25519.g_x, Ed25519.g_y, 1%Z, Ed25519.fmul Ed25519.g_x Ed25519.g_y).
 Proof. exact Ed25519Facts.constants_defined. Qed.
 
+(* its point addition (canonical representatives, fast reduction) is the RFC reference code's point_add modulo p, coordinate by coordinate,
+   and keeps coordinates canonical *)
+Theorem C19_rfc8032_point_add : forall P Q, Ed25519Facts.canonp P -> Ed25519Facts.canonp Q ->
+  Ed25519Facts.canonp (Ed25519.point_add P Q) /\ Ed25519Facts.eqp (Ed25519.point_add P Q) (Ed25519Facts.point_add_rfc P Q).
+Proof. exact Ed25519Facts.point_add_spec. Qed.
+
+(* verification refuses wrong lengths and a non-canonical S (no malleability by adding the group order), RFC 8032 5.1.7 *)
+Theorem C19_rfc8032_verify_refuses : forall pub msg sg, Ed25519.verify pub msg sg = true ->
+  length pub = 32%nat /\ length sg = 64%nat /\ (Ed25519.le_num (skipn 32 sg) < Ed25519.fq)%Z.
+Proof.
+  intros pub msg sg H. destruct (Ed25519Facts.verify_needs_lengths pub msg sg H) as [H1 H2].
+  split; [exact H1|]. split; [exact H2|]. exact (Ed25519Facts.verify_needs_canonical_s pub msg sg H).
+Qed.
+
 (* the key-file and filing theorems above, instantiated with it: no premise about the primitive is left *)
 Theorem C19_keyfile_roundtrip_rfc8032 : forall seed files, length seed = 32%nat ->
   write_keyfiles Ed25519.public_key (VPriv seed) = Ok files ->
@@ -172,5 +186,7 @@ Print Assumptions C19_source_pinned.
 Print Assumptions C19_rfc8032_sizes.
 Print Assumptions C19_rfc8032_field_ops.
 Print Assumptions C19_rfc8032_constants.
+Print Assumptions C19_rfc8032_point_add.
+Print Assumptions C19_rfc8032_verify_refuses.
 Print Assumptions C19_keyfile_roundtrip_rfc8032.
 Print Assumptions C19_hex_filed_is_pub_rfc8032.
